@@ -3,7 +3,7 @@
 # change applied; one line per change: detected (failing input) / detected (no-failing-input-found) / MISSED
 cd /verif
 sel="$@"
-for d in seeded/*/; do
+for d in seeded/C*/; do
   name=$(basename $d); id=${name%_*}
   if [ -n "$sel" ] && ! echo " $sel " | grep -q " $id "; then continue; fi
   echo "$name $id"
